@@ -3139,6 +3139,45 @@ def mutants(corpus: Corpus):
         out.append(Mutant("c14-revert-8b54584-mathjax-notice-own-suppression-test", "C14.R4", mj.rel, splice(mj.src, st0, "if logging.is_suppressed_warning('myst', 'mathjax', app.config.suppress_warnings):\n        return\n    " + ast.get_source_segment(mj.src, st0)), expect="log_override_warning"))
     else:
         out.append(("c14-revert-8b54584-mathjax-notice-untyped", "log_override_warning has no typed logger call"))
+    # 6e'. reverts of 3b0f79b (the three sites R8 reported on the tree before it)
+    def _without_sm(classes: ast.expr) -> str | None:
+        """The class union / tuple of an isinstance test with system_message taken out again."""
+        items: list[ast.expr] = []
+
+        def flat(x: ast.expr) -> None:
+            if isinstance(x, ast.BinOp) and isinstance(x.op, ast.BitOr):
+                flat(x.left)
+                flat(x.right)
+            elif isinstance(x, ast.Tuple):
+                for y in x.elts:
+                    flat(y)
+            else:
+                items.append(x)
+
+        flat(classes)
+        keep = [unparse(x) for x in items if not _sm_class(x)]
+        if not keep or len(keep) == len(items):
+            return None
+        return "(" + ", ".join(keep) + ("," if len(keep) == 1 else "") + ")" if isinstance(classes, ast.Tuple) else " | ".join(keep)
+
+    f = base.func("DocutilsRenderer.render_link_unknown")
+    asg = find_node(f, lambda n: isinstance(n, ast.Assign) and len(n.targets) == 1 and isinstance(n.targets[0], ast.Attribute) and n.targets[0].attr == "rawsource" and isinstance(n.value, ast.Call) and dotted(n.value.func) == "clean_astext" and len(n.value.args) == 1)
+    if asg is not None:
+        out.append(Mutant("c14-revert-3b0f79b-link-rawsource-keeps-warning-text", "C14.R8", base.rel, splice(base.src, asg.value, f"{unparse(asg.value.args[0])}.astext()"), expect="render_link_unknown"))
+    else:
+        out.append(("c14-revert-3b0f79b-link-rawsource-keeps-warning-text", "render_link_unknown no longer sets rawsource = clean_astext(<node>)"))
+    tr = corpus.mod("mdit_to_docutils.transforms")
+    for mid, qn, what in (
+        ("c14-revert-3b0f79b-footnote-transition-guard-counts-warnings", "CollectFootnotes.apply", "children of"),
+        ("c14-revert-3b0f79b-closing-transition-hidden-by-warning", "CollectFootnotes._ends_with_transition", "children of"),
+    ):
+        f = tr.func(qn)
+        ic = find_node(f, lambda n: isinstance(n, ast.Call) and dotted(n.func) == "isinstance" and len(n.args) == 2 and _mentions_sm(n.args[1]) and any(isinstance(a, (ast.GeneratorExp, ast.ListComp)) for a in ancestors(n)))
+        less = _without_sm(ic.args[1]) if ic is not None else None
+        if less is not None:
+            out.append(Mutant(mid, "C14.R8", tr.rel, splice(tr.src, ic.args[1], less), expect=qn))
+        else:
+            out.append((mid, f"{qn} has no isinstance(…, <classes incl. system_message>) over a child list"))
     # 6f. the class of the new known findings, at other sites
     f = base.func("DocutilsRenderer.render_heading") if "DocutilsRenderer.render_heading" in base.functions else None
     cu = find_node(base.func("DocutilsRenderer.generate_heading_target"), lambda n: isinstance(n, ast.Call) and dotted(n.func) == "clean_astext") if "DocutilsRenderer.generate_heading_target" in base.functions else None
